@@ -92,6 +92,17 @@ def run(tier, seed, replay):
             s2 = seq[:i] + seq[i + 1:]
             app_lines.append("proto_app " + (",".join(s2) or "-"))
             app_meta.append(("delete", b, s2))
+        for i in range(len(seq)):
+            it = seq[i]
+            if it.startswith("p"):
+                base, pr = it.split(":")
+                s2 = seq[:i] + ["%s:%d" % (base, int(pr) + 1)] + seq[i + 1:]
+            elif it.startswith("r"):
+                s2 = seq[:i] + ["p%s:%d" % (it[1:], rng.choice([2, 3, 7]))] + seq[i + 1:]      # the default priority of a single rule is 1
+            else:
+                continue
+            app_lines.append("proto_app " + ",".join(s2))
+            app_meta.append(("priority", b, s2))
         TOGGLE = {"se": "ie", "ie": "se", "st": "it", "it": "st"}
         for i in range(len(seq)):
             if seq[i][:2] in TOGGLE:
